@@ -378,6 +378,10 @@ func checkC08(run *mon.Run, rng *mon.Rand, thorough bool) {
 		w := &c08World{run: run, rng: rr, tc: newTwoChain(4*time.Second, L2EnvOpts{}), denoms: []string{"uinit", "uusdc"}, feat: map[string]int{}, initial: map[string]*big.Int{}}
 		l1 := w.tc.L1.L1
 		w.tc.L1.L1.Speculate, w.tc.L2.L2.Speculate = rr.Bool(), rr.Bool()
+		if rr.Bool() {
+			w.tc.L1.EnableShadow(rr.U64())
+			w.tc.L2.EnableShadow(rr.U64())
+		}
 		for _, d := range w.denoms {
 			w.initial[d] = new(big.Int)
 			for _, coins := range sim.AllBalances(l1.Ctx, l1.BK) {
